@@ -329,6 +329,16 @@ def run_shard(spec, ctx):
         # digit runs with separators in every position: parsed in a child process under a CPU-time limit, because time
         # spent inside the host's regex engine or other native code is invisible to the logical step clock
         run_cpu_limited(ctx, digit_separator_texts())
+        # every two-character continuation of \x, and every character after a backslash, in both kinds of string
+        printable = [chr(c) for c in range(32, 127)] + ["\n", "\t", "é", "²"]
+        for q in "'\"":
+            for c1 in printable:
+                check_text(ctx, q + "\\" + c1 + q, deep=False)
+                check_text(ctx, q + "\\x" + c1 + q, deep=False)
+                check_text(ctx, "f(" + q + "a\\x" + c1, deep=False)
+                for c2 in printable:
+                    check_text(ctx, q + "\\x" + c1 + c2 + q, deep=False)
+                    ctx.count("escape_texts")
         # very long single tokens
         for n in (100, 1000, 4299, 4300, 4301, 5000, 20000):
             for text in ("9" * n, "1" + "0" * n, "0x" + "f" * n, "0b" + "1" * n, "1_" * n + "1", "0." + "3" * n, "9" * n + ".5",
